@@ -436,7 +436,10 @@ BuiltinExpect(f, args) ==
                         ELSE IF IsErr(args[1]) THEN OfV(args[2]) ELSE OfV(args[1])
     [] f = "IFNA" -> IF Len(args) # 2 \/ IsUnspec(args[1]) THEN EAny
                      ELSE IF IsErr(args[1]) /\ args[1].c = "#N/A" THEN OfV(args[2]) ELSE OfV(args[1])
-    [] f = "ERROR.TYPE" -> IF Len(args) = 1 /\ IsErr(args[1]) THEN EAnyNum ELSE EAny
+    [] f = "ERROR.TYPE" -> IF Len(args) = 1 /\ IsErr(args[1])
+                           THEN (IF args[1].c = "#ERROR!" THEN EAlts(<<EAnyNum, EVal(Err("#N/A"))>>)   \* (no spreadsheet number exists for it)
+                                 ELSE EAnyNum)
+                           ELSE EAny
     [] f = "NA" -> IF args = <<>> THEN EVal(Err("#N/A")) ELSE EAny
     [] f = "TRUE" -> IF args = <<>> THEN EVal(Bool(TRUE)) ELSE EAny
     [] f = "FALSE" -> IF args = <<>> THEN EVal(Bool(FALSE)) ELSE EAny
